@@ -130,10 +130,40 @@ def obsJson (o : HL.SettingsSpec.Obs) : Lean.Json :=
   Lean.Json.mkObj [
     ("completionItems", toJson o.completionItems), ("subsequenceItems", toJson o.subsequenceItems),
     ("countsShown", o.countsShown), ("format", tri o.format "indent" "amountColumn"),
-    ("hoverAnswers", o.hoverAnswers), ("inline", tri o.inline "items" "indent"),
+    ("gate", Lean.Json.mkObj (o.gate.map fun (m, w) => (m, toJson w))),
+    ("inline", tri o.inline "items" "indent"),
     ("published", toJson o.published), ("codes", toJson o.codes.toArray),
     ("docTooLarge", o.docTooLarge), ("depthExceeded", o.depthExceeded),
     ("includeTooLarge", o.includeTooLarge)]
+
+/-- the model's prediction for the request probes: `Server.FeatureGate` on the model's
+    settings (`HL.Settings.dispatch`); the probed methods and which of them have a non-empty
+    answer are the scenario's (`HL.SettingsSpec.featureRequests`) -/
+def modelGate (σ : Srv) : List (String × String) :=
+  HL.SettingsSpec.featureRequests.map fun (m, _, ne) =>
+    (m, match dispatch σ m ne with
+      | none => "null"
+      | some true => "answered"
+      | some false => "passed")
+
+/-- was the feature that governs request `m` advertised by `Initialize`?  (requests without a
+    switch: always served) -/
+def advertised (caps : Option Caps) (m : String) : Bool :=
+  match featureOfMethod m requestFeature with
+  | none => true
+  | some f => match caps with
+    | none => false
+    | some c => (c.advertises f).getD true
+
+/-- The oracle on the request probes: a request of a switched-off feature gets the empty
+    answer; a switched-on feature that was advertised answers as before; a switched-on feature
+    that was not advertised is outside the statement.  Returns the first offending request. -/
+def judgeGate (caps : Option Caps) (want : List (String × String)) (o : Lean.Json) : Option String :=
+  want.findSome? fun (m, w) =>
+    let g := jstr o m
+    if w == "null" then (if g == "null" then none else some s!"{m} of a switched-off feature still answered ({g})")
+    else if !advertised caps m then none
+    else if g == w then none else some s!"{m} of a switched-on, advertised feature: {g}, expected {w}"
 
 def pendingIdx (σ : Srv) : List Nat :=
   (σ.tasks.zipIdx.filter fun (t, _) => match t.pc with | .asked => true | _ => false).map (·.2)
@@ -158,7 +188,10 @@ def wrapTagged (p : Lean.Json) : Lean.Json :=
                notification changes nothing, in whatever order the answers are handled — so
                that the settings at rest are those of the latest request;
                (c) probes show the stored settings in effect — the limits as a loader with an
-               empty cache applies them — and no handler fails. -/
+               empty cache applies them — and no handler fails;
+               (d) every feature switch is obeyed by the requests it governs, whatever was
+               advertised at initialisation: a request of a switched-off feature gets the
+               empty answer, a switched-on feature that was advertised answers as before. -/
 def seq (j : Lean.Json) : Lean.Json := Id.run do
   let events := jarr j "events"
   let impl := jarr j "impl"
@@ -199,7 +232,7 @@ def seq (j : Lean.Json) : Lean.Json := Id.run do
         | .ok (σ', caps) =>
           σ := σ'
           extra := [("caps", capsJson caps)]
-          caps0 := some (capsOf implNow)
+          caps0 := some (capsOf implNow)   -- = the advertised ones, or the verdict below fails
         | .error _ => extra := [("error", true)]
         if domain then
           let (o, w) := judge implPrev pj implNow
@@ -257,22 +290,25 @@ def seq (j : Lean.Json) : Lean.Json := Id.run do
     | "observe" =>
       let fresh := !jbool e "reuse"
       let cacheUsed := if fresh then [] else σ.cache
-      let exp := HL.SettingsSpec.expectedObsAt σ.settings hasClient
-        (fun L D => ((includeProbe cacheUsed L D).1, (includeProbe cacheUsed L D).2.1))
+      let exp := { HL.SettingsSpec.expectedObsAt σ.settings hasClient
+        (fun L D => ((includeProbe cacheUsed L D).1, (includeProbe cacheUsed L D).2.1)) with
+        gate := modelGate σ }
       σ := ok! σ (step σ (.probe fresh))
       extra := [("obs", obsJson exp)]
       if domain then
         let o := jget implSt "obs"
         -- the statement: the stored limits govern the load, whatever was loaded before
         let want := HL.SettingsSpec.expectedObs implNow hasClient
-        let hoverOff := (match caps0 with | some c => c.hoverProvider | none => false) &&
-          !implNow.features.hover && jbool o "hoverAnswers"
+        -- the request probes are judged separately (what was advertised matters there)
+        let strip (x : Lean.Json) : Lean.Json := x.setObjVal! "gate" Lean.Json.null
         if jget o "format" == "panic" || jget o "inline" == "panic" then
           verdict := some (false, "", s!"event {i}: a request handler panics with the accepted settings")
-        else if o != obsJson want then
+        else if strip o != strip (obsJson want) then
           verdict := some (false, "", s!"event {i}: observed behaviour does not follow the stored settings")
-        else if hoverOff then
-          verdict := some (false, "feature-switch-after-init", s!"event {i}: hover still answered after features.hover was switched off")
+        else match judgeGate caps0 want.gate (jget o "gate") with
+          | some w => verdict := some (false, "", s!"event {i}: {w}")
+          | none => pure ()
+        if want.gate.any (fun (_, w) => w == "null") then nontrivial := true
     | _ => pure ()
     match verdict with
     | some (false, k, w) =>
@@ -287,12 +323,79 @@ def seq (j : Lean.Json) : Lean.Json := Id.run do
     ("in_domain", domain), ("known", toJson (if unexcused then #[] else known)), ("why", why),
     ("nontrivial", nontrivial)]
 
+/-! ### c19.wire -/
+
+/-- the requests probed over the wire (harness `c19WireMethods`): the scenario's, without
+    textDocument/codeAction, which cmd/hledger-lsp's dispatcher answers with null itself -/
+def wireRequests : List (String × (Settings → Bool) × Bool) :=
+  HL.SettingsSpec.featureRequests.filter fun (m, _, _) => m != "textDocument/codeAction"
+
+/-- what the statement's rule says about one switch after a payload: `some b` = it is `b`,
+    `none` = the rule leaves it open (an unspecified value, or several different good ones) -/
+def ruleSwitch (l : Leaf) (prev : Option Bool) (p : J) : Option Bool :=
+  let ms := HL.SettingsSpec.mentions l (HL.SettingsSpec.levels p)
+  if ms.contains .unspec then none
+  else match HL.SettingsSpec.goods ms with
+    | [] => prev
+    | g :: gs => if gs.all (· == g) then (match g with | .b v => some v | _ => none) else none
+
+/-- op c19.wire — the built binary (harness `c19WireCase`): initialize without
+    `workspace.configuration` and without options, then per step an optional pushed payload and
+    one request per probed method.
+    model   = per step the gate words the model predicts (`dispatch` on the model's settings);
+    spec_ok = a request of a switched-off feature gets null, a switched-on one is answered
+              (every feature is advertised: the options are empty) — the switches as the
+              statement's rule determines them from the payloads pushed so far. -/
+def wire (j : Lean.Json) : Lean.Json := Id.run do
+  let steps := jarr j "steps"
+  let impl := jarr j "impl"
+  let mut σ := newServer true
+  let mut caps0 : Option Caps := none
+  match initializeSrv σ (some ⟨none, .null⟩) with
+  | .ok (σ', c) =>
+    σ := σ'
+    caps0 := some c
+  | .error _ => pure ()
+  σ := ok! σ (stepTask (ok! σ (step σ .initialized)) 0 .err)
+  let mut sw : List (Feature × Option Bool) := Feature.all.map fun f => (f, some true)
+  let mut out : Array Lean.Json := #[]
+  let mut ok := true
+  let mut why := ""
+  let mut nontrivial := false
+  let mut i := 0
+  for p in steps do
+    if !p.isNull then
+      let pj := untag p
+      σ := ok! σ (step σ (.didChangeConfiguration pj))
+      sw := sw.map fun (f, b) => (f, ruleSwitch f.leaf b pj)
+    let words := (modelGate σ).filter fun (m, _) => wireRequests.any fun (m', _, _) => m' == m
+    out := out.push (Lean.Json.mkObj [("gate", Lean.Json.mkObj (words.map fun (m, w) => (m, toJson w)))])
+    let o := jget (impl[i]?.getD .null) "gate"
+    for (m, _, ne) in wireRequests do
+      let g := jstr o m
+      let want : Option String := match featureOfMethod m requestFeature with
+        | none => some (HL.SettingsSpec.gateWord true ne)
+        | some f => match (sw.find? fun (f', _) => f' == f).bind (·.2) with
+          | some b => if b && !advertised caps0 m then none else some (HL.SettingsSpec.gateWord b ne)
+          | none => none
+      match want with
+      | some w =>
+        if w == "null" then nontrivial := true
+        if g != w && ok then
+          ok := false
+          why := s!"step {i}: {m} answered {g}, the switches pushed so far ask for {w}"
+      | none => pure ()
+    i := i + 1
+  return Lean.Json.mkObj [("model", Lean.Json.arr out), ("spec_ok", ok), ("in_domain", true),
+    ("known", Lean.Json.arr #[]), ("why", why), ("nontrivial", nontrivial)]
+
 def handle (op : String) (j : Lean.Json) : Option Lean.Json :=
   match op with
   | "c19.facts" => some (facts j)
   | "c19.keys" => some (keys j)
   | "c19.parse" => some (parse j)
   | "c19.seq" => some (seq j)
+  | "c19.wire" => some (wire j)
   | _ => none
 
 end HL.Driver.C19
